@@ -26,7 +26,7 @@ stmt:
   ["yield", expr, component, time_expr, time_id]
   ["fail"] | ["switch", phase] | ["restart"] | ["raise", excname, msg]
 expr (same codec as c08):
-  number | bool | "name" | ["+"|"-"|"*"|"/"|"**", e, e] | ["[]", e, e] | ["call", fname, [e..], {kw: e}] |
+  number | bool | "name" | {"npc": [dtype, "repr"]} (numpy scalar constant) | {"arrc": [numbers]} (numpy array constant) | ["+"|"-"|"*"|"/"|"**", e, e] | ["[]", e, e] | ["call", fname, [e..], {kw: e}] |
   ["cmp", op, e, e] | ["not", e] | ["and"|"or", e, e, ...] | ["if", c, t, e]
 
 Domain (inputs outside are skipped, never reported): every variable is assigned on every program-order
@@ -80,6 +80,11 @@ def dec(e):
         return P.Variable(e)
     if isinstance(e, (bool, int, float)) or e is None:
         return e
+    if isinstance(e, dict):
+        # constants of numpy types (leaves): {"npc": [dtype, "repr"]} a numpy scalar, {"arrc": [numbers]} a 1-d array constant
+        if "npc" in e:
+            return getattr(np, e["npc"][0])(float(e["npc"][1]))
+        return np.array(e["arrc"])
     op = e[0]
     if op == "+":
         return P.Sum((dec(e[1]), dec(e[2])))
@@ -570,6 +575,10 @@ class Ref:
             return v
         if isinstance(e, (bool, int, float)) or e is None:
             return e
+        if isinstance(e, dict):
+            if "npc" in e:
+                return float(e["npc"][1])                       # the number that was written
+            return np.array(e["arrc"], dtype=object)            # the entries that were written, each with its own type
         op = e[0]
         if op == "+":
             return self.ev(e[1]) + self.ev(e[2])
@@ -1723,6 +1732,44 @@ def bounded(payload):
                 "initial": "main", "funcs": {}, "state": {"x": x0, "y": 1}, "t0": 0, "dt": 0.5,
                 "run": {"max_steps": 2, "t_end": None}, "cap": 12})
             parts["nested_conditional_expression_programs"] = parts.get("nested_conditional_expression_programs", 0) + 1
+
+    # constants of numpy types: non-finite and finite numpy scalars; an integer-valued array constant that later gets a fraction
+    for cst in ({"npc": ["float64", "inf"]}, {"npc": ["float32", "-inf"]}, {"npc": ["float64", "1.5"]}, {"npc": ["float32", "0.25"]},
+                {"npc": ["int64", "3"]}):
+        consider({"phases": [{"name": "main", "next": "main", "body": [
+            ["assign", "c", cst],
+            ["assign", "<state>x", ["if", ["cmp", "<", "<state>x", "c"], ["+", "<state>x", 1], ["-", "<state>x", 1]]],
+            ["assign", "<t>", ["+", "<t>", "<dt>"]], ["yield", "<state>x", "y", "<t>", "final"]]}],
+            "initial": "main", "funcs": {}, "state": {"x": 2, "y": 1}, "t0": 0, "dt": 0.5,
+            "run": {"max_steps": 2, "t_end": None}, "cap": 12})
+        parts["numpy_constant_programs"] = parts.get("numpy_constant_programs", 0) + 1
+    for arr in ([1, 2, 1], [1.0, 2, 1], [0, 0]):
+        n_ = len(arr)
+        tot = ["[]", "<p>w", 0]
+        for j_ in range(1, n_):
+            tot = ["+", tot, ["[]", "<p>w", j_]]
+        consider({"phases": [
+            {"name": "init", "next": "main", "body": [["assign", "<p>w", {"arrc": arr}],
+                                                      ["assign_sub", "<p>w", 1, ["*", 3, "<dt>"], []]]},
+            {"name": "main", "next": "main", "body": [["assign", "<state>x", ["+", "<state>x", ["*", "<dt>", tot]]],
+                                                      ["assign", "<t>", ["+", "<t>", "<dt>"]],
+                                                      ["yield", "<state>x", "y", "<t>", "final"]]}],
+            "initial": "init", "funcs": {}, "state": {"x": 0.0, "y": 1}, "t0": 0, "dt": 0.25,
+            "run": {"max_steps": 3, "t_end": None}, "cap": 12})
+        parts["numpy_constant_programs"] = parts.get("numpy_constant_programs", 0) + 1
+
+    # every built-in on a two-dimensional state, a complex vector and a scalar (interpreter's implementation vs generated text)
+    for fn, nargs in (("<builtin>norm_1", 1), ("<builtin>norm_2", 1), ("<builtin>norm_inf", 1), ("<builtin>elementwise_abs", 1),
+                      ("<builtin>len", 1), ("<builtin>dot_product", 2)):
+        for st_name, st_val in (("m", [[1.0, -2.0], [3.0, 4.0]]), ("m", [[1.0, -2.0, 0.5], [3.0, 4.0, -6.0]]), ("m", [1.0, -2.0, 3.0])):
+            args = ["<state>m"] * nargs
+            consider({"phases": [{"name": "main", "next": "main", "body": [
+                ["assign", "est", ["call", fn, args, {}]],
+                ["assign", "<state>m", ["*", 0.5, "<state>m"]],
+                ["assign", "<t>", ["+", "<t>", "<dt>"]], ["yield", "est", "y", "<t>", "final"]]}],
+                "initial": "main", "funcs": {}, "state": {"m": st_val, "y": 1}, "t0": 0, "dt": 0.5,
+                "run": {"max_steps": 2, "t_end": None}, "cap": 12})
+            parts["builtins_on_matrix_state_programs"] = parts.get("builtins_on_matrix_state_programs", 0) + 1
 
     # loop nests whose inner bounds depend on an outer counter (triangles, bands), element by element
     for nest in ([["i", 0, 4], ["j", 0, ["+", "i", 1]]], [["i", 0, 4], ["j", "i", 4]], [["i", 1, 4], ["j", ["-", "i", 1], ["+", "i", 1]]],
